@@ -538,7 +538,7 @@ var iterTermKinds = []itkind{
 	}),
 	{"iterator.ToList", func(x *mc.X, pos int, red bool) iterm {
 		k := []int{99, 0, 1, 2}[x.Choose(4, "cells")]
-		return iterm{label: fmt.Sprintf("ToList, walk %d cells twice", k), shortCircuit: k < 99, ref: func(in []int) string { return refFirst(k)(in) + refFirst(k)(in) },
+		return iterm{label: fmt.Sprintf("ToList, walk %d cells twice", k), shortCircuit: k < 99, look: 1, ref: func(in []int) string { return refFirst(k)(in) + refFirst(k)(in) },
 			run: func(e *env, cb *int, it fp.Iterator[int]) string {
 				l := iterator.ToList(it)
 				return walkList(l, k) + walkList(l, k)
@@ -546,7 +546,7 @@ var iterTermKinds = []itkind{
 	}},
 	{"list.Collect", func(x *mc.X, pos int, red bool) iterm {
 		k := []int{99, 0, 1, 2}[x.Choose(4, "cells")]
-		return iterm{label: fmt.Sprintf("list.Collect, walk %d cells twice", k), shortCircuit: k < 99, ref: func(in []int) string { return refFirst(k)(in) + refFirst(k)(in) },
+		return iterm{label: fmt.Sprintf("list.Collect, walk %d cells twice", k), shortCircuit: k < 99, look: 1, ref: func(in []int) string { return refFirst(k)(in) + refFirst(k)(in) },
 			run: func(e *env, cb *int, it fp.Iterator[int]) string {
 				l := list.Collect(it)
 				return walkList(l, k) + walkList(l, k)
